@@ -131,6 +131,22 @@ func UniverseKV() *Universe {
 	}
 	b.Raw("pR", pR, false)
 	_ = kvR
+	// a re-creation of the deleted k1 that does not cite the delete marker (built at k3, where k1 is
+	// deleted; the reference of its read of k1 is blanked and the transaction signed again): invalid,
+	// it would cut the key's version chain
+	b.At("k3")
+	pBlind, _, err := b.W.BuildKVTx("B", "put k1 blind", []In{change(kvR)}, "pBlind") // B's output of k2
+	if err != nil {
+		panic(err)
+	}
+	for _, in := range pBlind.TxInputsExt {
+		if string(in.Key) == "k1" {
+			in.RefTxid, in.RefOffset = nil, 0
+		}
+	}
+	SignTx(pBlind, "B", nil)
+	b.Raw("pBlind", pBlind, false) // valid exactly where k1 was never written
+	b.At("k4")
 	return b.Done()
 }
 
